@@ -28,6 +28,6 @@ Spec == Init /\ [][Next]_vars
 Accepted ==
   LET d == TLCGet("stats").diameter IN
   IF d - 1 = Len(Rec) THEN PrintT(<<"ACCEPTED", ToString(Len(Rec))>>)
-  ELSE PrintT(<<"REJECTED", ToJson([at |-> d, run |-> Rec[d].run, lay |-> Rec[d].lay, cp |-> Rec[d].cp,
+  ELSE PrintT(<<"REJECTED", ToJson([at |-> d, run |-> IF "run" \in DOMAIN Rec[d] THEN Rec[d].run ELSE 0, lay |-> Rec[d].lay, cp |-> Rec[d].cp,
                                     obs |-> Rec[d].obs, asis |-> Read(Rec[d].files).obs])>>)
 =============================================================================
